@@ -34,12 +34,14 @@ RULE = ("HDDDM with 1-4 features (Hellinger or a user divergence) and CDBD with 
         "(accepted, and rejected 2-row references for detect_batch 1); np.random.seed(f(case, step)) before every call. Observables after every call: "
         "drift_state, counters, current_distance, beta, epsilon list, total_epsilon, distances / epsilon_values / thresholds, reference_n, "
         "feature_epsilons, feature_info, the reference content, both histograms of every feature; optional private: _lambda, _bins, _prev_distance. "
+        "After (up to two) drifts per history a new detector is started on the drifted batch and compared with the running one on the later "
+        "batches (state, counters, distance, epsilon, threshold, reference, feature_epsilons from the second batch of the epoch, feature_info on drift). "
         "Non-trivial: at least one drift and at least one update after it; distinct by content.")
 SHARD = 6
 
 RUN = {"drifts": 0, "updates": 0, "exact_ties_eps_eq_beta": 0, "near_ties_1e-12": 0, "pow_exceptions": 0, "proxy_batches": 0,
        "degenerate_ranges": 0, "rejected_set_reference": 0, "bootstrap_estimates_validated": 0, "thresholds": 0,
-       "side_identity": 0, "side_symmetry": 0, "side_symmetry_bit_exact": 0}
+       "side_identity": 0, "side_symmetry": 0, "side_symmetry_bit_exact": 0, "twin_rows_compared": 0}
 getcontext().prec = 60
 SQRT2 = math.sqrt(2.0)
 SQRTLN2 = math.sqrt(math.log(2.0))
@@ -168,6 +170,73 @@ def pair_distance(case, a, b):
     return float(d.current_distance)
 
 
+TWIN_KEYS = ("ds", "since", "ref_n", "cur", "epsl", "tot", "ref_sha")
+
+
+def twins(case, rows, limit=2):
+    """clean-slate experiment: after a drift at step i a new detector is given the drifted batch as reference and fed the
+    later batches under the same seed schedule (up to its next drift / the next set_reference)"""
+    out = []
+    ops = case["ops"]
+    for i, row in enumerate(rows):
+        if len(out) >= limit:
+            break
+        if row["ds"] != "drift" or ops[i][0] != 0 or i + 1 >= len(ops) or ops[i + 1][0] != 0:
+            continue
+        t = make(case)
+        np.random.seed(seed_of(case, i))
+        t.set_reference(container(case, case["batches"][ops[i][1]]))
+        trows = []
+        for j in range(i + 1, len(ops)):
+            if ops[j][0] != 0:
+                break
+            np.random.seed(seed_of(case, j))
+            t.update(container(case, case["batches"][ops[j][1]]))
+            r = snap(t)
+            trows.append(r)
+            if r["ds"] == "drift" or rows[j]["ds"] == "drift":
+                break
+        out.append({"at": i, "rows": trows})
+    return out
+
+
+def check_twins(case, obs):
+    for tw in obs.get("twins", []):
+        i = tw["at"]
+        off = None
+        for n, tr in enumerate(tw["rows"]):
+            rr = obs["rows"][i + 1 + n]
+            where = f"step {i + 1 + n} vs. a new detector started on the batch that drifted at step {i}"
+            if off is None:
+                off = rr["total"] - tr["total"]
+                if off != obs["rows"][i]["total"]:
+                    return [f"{where}: total_batches differ by {off}, {obs['rows'][i]['total']} batches were seen before"]
+            if rr["total"] - tr["total"] != off:
+                return [f"{where}: total_batches offset changed"]
+            for key in TWIN_KEYS:
+                a, b = rr[key], tr[key]
+                same = (a == b) if not isinstance(a, float) else feq(a, b)
+                if isinstance(a, list) and isinstance(b, list):
+                    same = len(a) == len(b) and all(feq(x, y) for x, y in zip(a, b))
+                if not same:
+                    return [f"{where}: {key} = {a!r}, the new detector reports {b!r}"]
+            last = lambda d, t: None if not d or d[-1][0] != t else d[-1][1]
+            for key in ("epsv", "thr", "dists"):
+                if not feq(last(rr[key], rr["total"]), last(tr[key], tr["total"])):
+                    return [f"{where}: {key} of this batch = {last(rr[key], rr['total'])!r}, the new detector reports {last(tr[key], tr['total'])!r}"]
+            if rr["since"] >= 2:      # before that the attribute keeps an older value / does not exist yet
+                a, b = rr["feps"], tr["feps"]
+                if a is None or b is None or len(a) != len(b) or not all(feq(x, y) for x, y in zip(a, b)):
+                    return [f"{where}: feature_epsilons = {a!r}, the new detector reports {b!r}"]
+            if rr["ds"] == "drift" and case["k"] > 1:
+                a, b = rr["finfo"], tr["finfo"]
+                if (a is None or b is None or a[2] != b[2] or len(a[0]) != len(b[0]) or not all(feq(x, y) for x, y in zip(a[0], b[0]))
+                        or not all(feq(x, y) for x, y in zip(a[1], b[1]))):
+                    return [f"{where}: feature_info = {a!r}, the new detector reports {b!r}"]
+            RUN["twin_rows_compared"] += 1
+    return []
+
+
 def run_impl(case):
     if case.get("hist"):
         try:
@@ -208,7 +277,7 @@ def run_impl(case):
             row["tppf"] = [list(x) for x in tlog[t0:]]
             row["err"] = err
             rows.append(row)
-    obs = {"rows": rows}
+    obs = {"rows": rows, "twins": twins(case, rows)}
     # side experiments for the distance axioms: identity and symmetry
     side = []
     for a, b in case.get("side", []):
@@ -376,7 +445,7 @@ def direct_check(case, obs):
         distances[total] = c
         if bound is not None and not (0.0 <= c <= bound * (1 + 1e-12)):
             return [f"{where}: distance {c!r} outside [0, {bound!r}]"]
-        if total > 1:
+        if since > 1:          # otherwise the attribute keeps its previous value
             feps = [float(np.float64(a) - np.float64(b)) for a, b in zip(fds, prev_fd)]
         drift = False
         if since >= 2:
@@ -513,6 +582,10 @@ def direct_check(case, obs):
             return [f"{where}: _bins = {row['bins']}, floor(sqrt(reference_n)) at the last refresh is {bins}"]
         if case.get("container") == "df" and row["ref_cols"] is not None and row["ref_cols"] != [f"c{j}" for j in range(k)]:
             return [f"{where}: reference columns {row['ref_cols']}"]
+    # ---- clean slate: the running detector against new detectors started on the drifted batches
+    m = check_twins(case, obs)
+    if m:
+        return m
     # ---- distance axioms on the side experiments
     sym_tol = 1e-12
     for s in obs.get("side", []):
